@@ -5,6 +5,7 @@ import (
 	"bytes"
 	"fmt"
 	"io"
+	"strconv"
 	"strings"
 	"sync"
 	"sync/atomic"
@@ -133,6 +134,103 @@ func disturb() {
 	shell.Split(otherInput)
 }
 
+// Ownership of results.  A []string returned by Split or Scanner.Split belongs
+// to the caller: sorting it, overwriting its elements or appending to r[:0] is
+// ordinary use.  The equations of C15 / C16 hold for EVERY call, so the next
+// call with the identical argument must again return the right fields, and a
+// slice handed out earlier must not be written to by the package afterwards.
+
+// repeatFully is the input size up to which the whole scribble-and-repeat
+// programme runs; beyond it only the immediate repetition of the main Split
+// call is made (every size gets that one).
+const repeatFully = 4096
+
+const (
+	markA = "\x00<element overwritten by the caller>"
+	markB = "<appended to r[:0] by the caller>"
+)
+
+// scribble overwrites every element of r over its whole capacity and then
+// appends one element to r[:0].
+func scribble(r []string) {
+	full := r[:cap(r)]
+	for i := range full {
+		full[i] = markA
+	}
+	_ = append(r[:0], markB)
+}
+
+// scribbled reports whether r still holds what scribble put there.
+func scribbled(r []string) bool {
+	full := r[:cap(r)]
+	for i, s := range full {
+		if (i == 0 && s != markB) || (i > 0 && s != markA) {
+			return false
+		}
+	}
+	return true
+}
+
+func showFields(fs []string) string {
+	n := 0
+	for _, f := range fs {
+		n += len(f)
+	}
+	if len(fs) > 16 || n > 600 {
+		return fmt.Sprintf("%d fields ending in %q", len(fs), tailOf(fs))
+	}
+	return fmt.Sprintf("%q", fs)
+}
+
+// sibling returns a string of the same length as in that differs from it in
+// one byte (first, middle or last, depending on the length); "x" for "".
+func sibling(in string) string {
+	if in == "" {
+		return "x"
+	}
+	b := []byte(in)
+	i := [3]int{0, len(b) / 2, len(b) - 1}[len(b)%3]
+	if b[i] == 'z' {
+		b[i] = 'y'
+	} else {
+		b[i] = 'z'
+	}
+	return string(b)
+}
+
+// splitRepeat is the "scribble and repeat" step for package Split.  r is what
+// Split(in) has just returned; it was validated against want, wantOK (which
+// must not share memory with r).  The caller's slice is overwritten, Split is
+// called again with the identical argument - at once, and once more (with an
+// equal string at another address) after other has made a call with a
+// different argument - and each result is validated from scratch.  other
+// returns a message if its own call went wrong; with other == nil (inputs of
+// many kilobytes, to bound the cost) only the immediate repetition is made.
+func splitRepeat(what, in string, r, want []string, wantOK bool, other func() string) string {
+	prev := r
+	for round := 0; round < 2 && (round == 0 || other != nil); round++ {
+		scribble(prev)
+		arg, when := in, "immediately"
+		if round == 1 {
+			if m := other(); m != "" {
+				return m
+			}
+			arg, when = strings.Clone(in), "after one call with a different argument"
+		}
+		got, ok := shell.Split(arg)
+		if ok != wantOK || !sameFields(got, want) {
+			return fmt.Sprintf("%s = Split(%s) was right on the first call; the caller then overwrote the elements of the slice it had been given (a result belongs to the caller) and called Split with the identical argument again (call #%d, %s): it returns %s, %v; want %s, %v",
+				what, abbrev(in), round+2, when, showFields(got), ok, showFields(want), wantOK)
+		}
+		if !scribbled(prev) {
+			return fmt.Sprintf("%s = Split(%s): a later Split call (call #%d) wrote into the slice an earlier call had returned to the caller (the caller had overwritten its elements; they now read %s)", what, abbrev(in), round+2, showFields(prev[:cap(prev)]))
+		}
+		prev = got
+	}
+	scribble(prev)
+	return ""
+}
+
 // checkQuoteKeep is O1 + O2 for a single string; the strings obtained go into keep.
 func checkQuoteKeep(s string, keep *keeper, idx int) string {
 	q := shell.Quote(s)
@@ -148,6 +246,19 @@ func checkQuoteKeep(s string, keep *keeper, idx int) string {
 	if !ok || len(fs) != 1 || fs[0] != s {
 		return fmt.Sprintf("Split(Quote(%q)) = %q, %v; want [%q], true (Quote gives %q)", s, fs, ok, s, q)
 	}
+	if len(q) <= repeatFully && (idx < 16 || idx%8 == 0) {
+		// (longer elements, and most elements of lists of hundreds: the
+		// repetition is made on the joined list, see runQuote)
+		if m := splitRepeat("Split(Quote(s))", q, fs, []string{s}, true, func() string {
+			sib := sibling(s)
+			if fs, ok := shell.Split(shell.Quote(sib)); !ok || len(fs) != 1 || fs[0] != sib {
+				return fmt.Sprintf("Split(Quote(%q)) = %q, %v; want [%q], true (called right after Split(Quote(%q)))", sib, fs, ok, sib, s)
+			}
+			return ""
+		}); m != "" {
+			return m
+		}
+	}
 	un, bare, wellFormed := unquoteWord(q)
 	if !wellFormed {
 		return fmt.Sprintf("Quote(%q) = %q is not a well-formed shell word (unbalanced quote or dangling backslash)", s, q)
@@ -161,6 +272,43 @@ func checkQuoteKeep(s string, keep *keeper, idx int) string {
 	return ""
 }
 
+// joinArgument is the mirror image of splitRepeat for the ARGUMENT of Join:
+// the slice passed to Join is the caller's too.  Join is called on a copy of
+// ss (equal list, other slice: equal result), the copy is then overwritten in
+// place and joined again (same slice, other contents: the result must be the
+// join of the NEW contents), then restored and joined once more.
+func joinArgument(ss []string, j string, keep *keeper) string {
+	arg := append(make([]string, 0, len(ss)), ss...)
+	if jA := shell.Join(arg); jA != j {
+		return fmt.Sprintf("Join(%q) = %q, but Join of an equal list held in another slice = %q", ss, j, jA)
+	} else if keep != nil {
+		keep.add("Join(copy of the list)", -1, jA)
+	}
+	for i := range arg {
+		arg[i] = "it's $" + strconv.Itoa(i)
+		if i%3 == 1 {
+			arg[i] = ""
+		}
+	}
+	jB := shell.Join(arg)
+	if fs, ok := shell.Split(jB); !ok || !sameFields(fs, arg) {
+		return fmt.Sprintf("the caller overwrote the elements of a slice it had passed to Join before (it held %q) with %q and joined it again: Join gives %q, and Split of that %q, %v; want the new elements and true", ss, arg, jB, fs, ok)
+	}
+	if keep != nil {
+		keep.add("Join(overwritten list)", -1, jB)
+	}
+	copy(arg, ss)
+	if jC := shell.Join(arg); jC != j {
+		return fmt.Sprintf("Join(%q) = %q at first and %q after the same slice had meanwhile held (and been joined with) other elements", ss, j, jC)
+	}
+	if len(ss) == 0 {
+		if fs, ok := shell.Split(shell.Join(nil)); !ok || len(fs) != 0 {
+			return fmt.Sprintf("Split(Join(nil)) = %q, %v; want no fields and true", fs, ok)
+		}
+	}
+	return ""
+}
+
 func runQuote(c QuoteCase, o *vk.Obs) string {
 	if c.Pre > 0 {
 		// a big call first: its own round trip must hold, and it must not
@@ -170,8 +318,15 @@ func runQuote(c QuoteCase, o *vk.Obs) string {
 			big = append(big, "it's a 'big' list $x *", "plain", "")
 		}
 		j := shell.Join(big)
-		if fs, ok := shell.Split(j); !ok || !sameFields(fs, big) {
+		fs, ok := shell.Split(j)
+		if !ok || !sameFields(fs, big) {
 			return fmt.Sprintf("Split(Join(list of %d strings, %d bytes joined)) does not return the list (ok=%v, %d fields)", len(big), len(j), ok, len(fs))
+		}
+		scribble(fs)
+		if c.Pre >= 70000 {
+			// (the repetition at this size with the smallest Pre only)
+		} else if fs2, ok := shell.Split(j); !ok || !sameFields(fs2, big) || !scribbled(fs) {
+			return fmt.Sprintf("Split(Join(list of %d strings, %d bytes joined)) returned the list; after the caller overwrote the elements of that result, the identical call does not (ok=%v, %s)", len(big), len(j), ok, showFields(fs2))
 		}
 		if q := shell.Quote(j); len(q) < len(j) {
 			return fmt.Sprintf("Quote of a %d-byte string returned %d bytes", len(j), len(q))
@@ -190,6 +345,24 @@ func runQuote(c QuoteCase, o *vk.Obs) string {
 	o.Step()
 	if !ok || !sameFields(fs, ss) {
 		return fmt.Sprintf("Split(Join(%q)) = %q, %v; want the same list and true (Join gives %q)", ss, fs, ok, j)
+	}
+	other := func() string {
+		more := append(append(make([]string, 0, len(ss)+1), ss...), "x y")
+		if fs, ok := shell.Split(shell.Join(more)); !ok || !sameFields(fs, more) {
+			return fmt.Sprintf("Split(Join(%q)) = %q, %v; want the same list and true", more, fs, ok)
+		}
+		return ""
+	}
+	if len(j) > repeatFully {
+		other = nil
+	}
+	if m := splitRepeat("Split(Join(list))", j, fs, ss, true, other); m != "" {
+		return m
+	}
+	if len(j) <= repeatFully {
+		if m := joinArgument(ss, j, keep); m != "" {
+			return m
+		}
 	}
 	want := make([]string, len(ss))
 	nt := len(ss) == 0
@@ -355,11 +528,25 @@ func checkSplit(in string) (refResult, string) {
 	if !sameFields(fs, ref.Fields) || ok != ref.Complete {
 		return ref, fmt.Sprintf("Split(%q) = %q, %v; the reference tokenizer gives %q, %v", in, fs, ok, ref.Fields, ref.Complete)
 	}
-	return ref, ""
+	other := func() string {
+		sib := sibling(in)
+		sref := refSplit(sib)
+		if fs, ok := shell.Split(sib); !sameFields(fs, sref.Fields) || ok != sref.Complete {
+			return fmt.Sprintf("Split(%q) = %q, %v; the reference tokenizer gives %q, %v (called right after Split(%q))", sib, fs, ok, sref.Fields, sref.Complete, in)
+		}
+		return ""
+	}
+	if len(in) > repeatFully/2 {
+		other = nil
+	}
+	return ref, splitRepeat("the result", in, fs, ref.Fields, ref.Complete, other)
 }
 
 // checkScanner is O3 for one input and one fragmentation.
 func checkScanner(in string, ref refResult, frag []int, eofWith bool, reuse *shell.Scanner, src int) string {
+	// the reused-scanner variant of scribble-and-repeat: on short inputs with
+	// every plan, on long (padded) ones with the whole-input plans only
+	scanRepeat := len(in) <= 512 || (len(frag) == 1 && frag[0] >= 64)
 	mk := func() io.Reader {
 		return srcReader(src, in, &fragReader{data: []byte(in), frag: frag, eofWith: eofWith})
 	}
@@ -411,8 +598,33 @@ func checkScanner(in string, ref refResult, frag []int, eofWith bool, reuse *she
 	}
 	// Scanner.Split
 	sc = shell.NewScanner(mk())
-	if got := sc.Split(); !sameFields(got, ref.Fields) {
+	got = sc.Split()
+	if !sameFields(got, ref.Fields) {
 		return fmt.Sprintf("%s: Scanner.Split yields %q, reference %q", desc, got, ref.Fields)
+	}
+	// "the remaining tokens": none are left now
+	if more := sc.Split(); len(more) != 0 {
+		return fmt.Sprintf("%s: a second Scanner.Split on the same, exhausted scanner returns %q, want no tokens", desc, more)
+	}
+	// the slice is the caller's: overwrite it and split the same input again
+	scribble(got)
+	sc = shell.NewScanner(mk())
+	if got2 := sc.Split(); !sameFields(got2, ref.Fields) || !scribbled(got) {
+		return fmt.Sprintf("%s: after the caller overwrote the elements of the slice Scanner.Split had returned, Scanner.Split of a new scanner over the same input yields %q, reference %q (the overwritten slice now reads %q)", desc, got2, ref.Fields, got[:cap(got)])
+	}
+	if reuse != nil && scanRepeat {
+		reuse.Reset(mk())
+		g1 := reuse.Split()
+		if !sameFields(g1, ref.Fields) {
+			return fmt.Sprintf("%s: Scanner.Split of a reused scanner (after Reset) yields %q, reference %q", desc, g1, ref.Fields)
+		}
+		scribble(g1)
+		reuse.Reset(mk())
+		if g2 := reuse.Split(); !sameFields(g2, ref.Fields) || !scribbled(g1) {
+			return fmt.Sprintf("%s: after the caller overwrote the elements of the slice Scanner.Split had returned, the same scanner (Reset to the same input) yields %q, reference %q (the overwritten slice now reads %q)", desc, g2, ref.Fields, g1[:cap(g1)])
+		} else {
+			scribble(g2)
+		}
 	}
 	// Rest after j tokens
 	for j := 0; j <= len(ref.Fields)+1; j++ {
@@ -547,11 +759,23 @@ func runSplit(c SplitCase, o *vk.Obs) string {
 			return fmt.Sprintf("Split(%d bytes: %d bytes of padding of kind %d, then %q) = %d fields, %v; the reference tokenizer gives %d fields, %v (last fields %q vs %q)",
 				len(in), c.Pad, c.PadKind%4, fromInts(c.In), len(fs), ok, len(ref.Fields), ref.Complete, tailOf(fs), tailOf(ref.Fields))
 		}
+		scribble(fs)
+		if fs2, ok := shell.Split(in); ok != ref.Complete || !sameFields(fs2, ref.Fields) || !scribbled(fs) {
+			return fmt.Sprintf("Split(%d bytes: %d bytes of padding of kind %d, then %q) was right on the first call; after the caller overwrote the elements of the slice it had been given, the identical call returns %s, %v; the reference tokenizer gives %s, %v",
+				len(in), c.Pad, c.PadKind%4, fromInts(c.In), showFields(fs2), ok, showFields(ref.Fields), ref.Complete)
+		}
 		o.Step()
 		sc := shell.NewScanner(strings.NewReader(in))
 		if got := sc.Split(); !sameFields(got, ref.Fields) || sc.Complete() != ref.Complete {
 			return fmt.Sprintf("Scanner.Split over %d bytes (%d bytes of padding of kind %d, then %q) gives %d fields, Complete = %v; reference %d fields, %v",
 				len(in), c.Pad, c.PadKind%4, fromInts(c.In), len(got), sc.Complete(), len(ref.Fields), ref.Complete)
+		} else {
+			scribble(got)
+		}
+		sc = shell.NewScanner(strings.NewReader(in))
+		if got := sc.Split(); !sameFields(got, ref.Fields) || sc.Complete() != ref.Complete {
+			return fmt.Sprintf("Scanner.Split over %d bytes (%d bytes of padding of kind %d, then %q), repeated on a new scanner after the caller overwrote the first result, gives %s, Complete = %v; reference %s, %v",
+				len(in), c.Pad, c.PadKind%4, fromInts(c.In), showFields(got), sc.Complete(), showFields(ref.Fields), ref.Complete)
 		}
 		if !ref.Complete {
 			o.NonTrivial()
@@ -576,6 +800,8 @@ func runSplit(c SplitCase, o *vk.Obs) string {
 		return fmt.Sprintf("the fields returned for %q changed after a later Split call: now %q / %q, were %q", in, first, viaScanner, keep)
 	}
 	_ = firstOK
+	scribble(first)
+	scribble(viaScanner)
 	ref, m := checkSplit(in)
 	if m != "" {
 		return m
@@ -710,10 +936,20 @@ func runConc(c ConcCase, o *vk.Obs) string {
 						how = "a new Scanner"
 						got, complete = scanAll(shell.NewScanner(strings.NewReader(in)), len(in)+2)
 					}
+					if it%6 == 3 && complete == ref.Complete && sameFields(got, ref.Fields) {
+						// the result is this goroutine's: overwrite it and
+						// call again with the identical argument
+						scribble(got)
+						how = "Split, called again with the identical argument after the caller overwrote the elements of its first result,"
+						got, complete = shell.Split(in)
+					}
 					if complete != ref.Complete || !sameFields(got, ref.Fields) {
 						stop.Store(true)
 						return fmt.Sprintf("while %d goroutines each tokenized an input of their own at the same time, %s over %q gave %q, %v (iteration %d of goroutine %d); alone, and by the reference tokenizer, it is %q, %v",
 							len(ins), how, in, got, complete, it, g, ref.Fields, ref.Complete)
+					}
+					if it%3 == 0 {
+						scribble(got) // Split's result: a []string of this goroutine's own
 					}
 				}
 				return ""
